@@ -1,7 +1,6 @@
 package main
 
 import (
-	"errors"
 	"fmt"
 
 	"github.com/d5/tengo/v2"
@@ -17,12 +16,6 @@ func noteObservations(r *report.Run) {
 			r.Note("observation phase panicked: %v", p)
 		}
 	}()
-	// error -> Error -> error: message on the way back
-	if o, err := tengo.FromInterface(errors.New("boom")); err == nil {
-		if e, ok := tengo.ToInterface(o).(error); ok {
-			r.Note("doc-silent: ToInterface(FromInterface(errors.New(\"boom\"))).Error() = %q (docs/interoperability.md documents only Go->Tengo: 'use error.Error() as String value'; the text read back is Error.String(), i.e. the documented String coercion \"error: ...\"; not claimed)", e.Error())
-		}
-	}
 	// Variable.Object(): godoc says "a copy of an actual Object used in the script"
 	s := tengo.NewScript([]byte("out := 0"))
 	_ = s.Add("v", []interface{}{1})
